@@ -148,6 +148,70 @@ def body_roundtrip(case):
     return labels
 
 
+def body_multi(case):
+    """One HDF5 file holding several grids at generated (nested) paths, written in a generated order, some of them
+    written again with overwrite=True: after every write, EVERY grid stored so far reads back as it was last written
+    (model: a dict path -> grid). A slice of a grid written to a file reads back as the slice."""
+    from nuspacesim.utils.interp import grid_slice_interp
+
+    NssGrid = _grid_mod()
+    tmp = tempfile.mkdtemp(prefix="nssverif_c18_")
+    labels = set()
+    try:
+        fn = os.path.join(tmp, "many.h5")
+        model = {}
+        grids = [build(g) for g in case["grids"]]
+        for step, (pi, gi, ow) in enumerate(case["ops"]):
+            path = MULTI_PATHS[pi % len(MULTI_PATHS)]
+            g, data, axes = grids[gi % len(grids)]
+            again = path in model
+            with quiet():
+                with cut(f"NssGrid.write(hdf5, path={path!r}{', overwrite=True' if again or ow else ''})"):
+                    if again or ow:
+                        g.write(fn, format="hdf5", path=path, overwrite=True)
+                    else:
+                        g.write(fn, format="hdf5", path=path)
+            model[path] = (data, axes, list(case["grids"][gi % len(grids)]["names"]))
+            if again:
+                labels.add("path_overwritten")
+            for p_, (d_, a_, n_) in model.items():
+                with quiet():
+                    with cut(f"NssGrid.read(hdf5, path={p_!r}) after writing {path!r} (step {step})"):
+                        r = NssGrid.read(fn, format="hdf5", path=p_)
+                _same_array(d_, r.data, f"grid at {p_!r} after writing {path!r}")
+                require(list(r.axis_names) == n_, f"grid at {p_!r} after writing {path!r}: axis names {list(r.axis_names)!r}, written {n_!r}")
+                for k_, (a0, a1) in enumerate(zip(a_, r.axes)):
+                    _same_array(a0, a1, f"grid at {p_!r} after writing {path!r}: axis {k_}")
+            if any(q != path and (q.startswith(path.rstrip("/") + "/") or path == "/") for q in model):
+                labels.add("parent_written_after_child")
+        if len(model) >= 2:
+            labels.add("several_grids_in_one_file")
+        # a slice written to a file reads back as the slice (both formats)
+        g, data, axes = grids[0]
+        if data.ndim >= 2 and data.dtype.kind == "f" and all(len(a) >= 2 for a in axes):
+            ax = case["ops"][0][0] % data.ndim
+            v = float(axes[ax][0] + 0.5 * (axes[ax][1] - axes[ax][0]))
+            with cut("grid_slice_interp"):
+                sl = grid_slice_interp(g, v, ax)
+            for fmt, ext in (("hdf5", "h5"), ("fits", "fits")):
+                pth = os.path.join(tmp, "slice." + ext)
+                with quiet():
+                    with cut(f"slice.write({fmt}) / read"):
+                        sl.write(pth, format=fmt)
+                        r = NssGrid.read(pth, format=fmt)
+                _same_array(np.asarray(sl.data), r.data, f"{fmt}: slice along axis {ax}")
+                require(list(r.axis_names) == list(sl.axis_names), f"{fmt}: a slice along axis {ax} ({case['grids'][0]['names'][ax]!r}) written to a file reads back with axis names {list(r.axis_names)!r}, the slice has {list(sl.axis_names)!r}")
+                for a0, a1 in zip(sl.axes, r.axes):
+                    _same_array(np.asarray(a0), a1, f"{fmt}: axis of a slice")
+            labels.add("slice_round_trip")
+    finally:
+        shutil.rmtree(tmp, ignore_errors=True)
+    return labels
+
+
+MULTI_PATHS = ["/", "/a", "/a/b", "/a/b/c", "/tau_cdf", "/tau_cdf/v1", "/x y", "/A"]
+
+
 def body_slice(case):
     from nuspacesim.utils.interp import grid_slice_interp
 
@@ -364,6 +428,19 @@ SUBCHECKS = [
         lambda labels: bool(labels & {"non_finite", "axis_dtype_differs"}) or ">=2d" in labels,
         {"quick": 300, "thorough": 12000},
         doc="write -> read in HDF5 and FITS: data, axes (own dtypes), names, shape equal at byte level",
+    ),
+    SubCheck(
+        "multi_grid_file",
+        st.fixed_dictionaries(
+            {
+                "grids": st.lists(grid_case(float_only=True, min_side=2), min_size=1, max_size=3),
+                "ops": st.lists(st.tuples(st.integers(0, 7), st.integers(0, 2), st.booleans()).map(list), min_size=2, max_size=6),
+            }
+        ),
+        body_multi,
+        lambda labels: "several_grids_in_one_file" in labels and "path_overwritten" in labels,
+        {"quick": 150, "thorough": 6000},
+        doc="model-based history on ONE HDF5 file: grids written at generated nested paths in generated order, rewritten with overwrite; after every write every stored grid reads back as last written (dict model); a slice written to HDF5 / FITS reads back as the slice",
     ),
     SubCheck(
         "slice",
